@@ -50,10 +50,9 @@ def replay(verdict, exe, res, seed=0, tag="print", sigprefix="print"):
         if got and got[-1] == "":
             got.pop()
         distinct.add("\n".join(b["lines"]))
-        if got != b["lines"]:
-            k = 0
-            while k < min(len(got), len(b["lines"])) and got[k] == b["lines"][k]:
-                k += 1
+        from .printnorm import same, first_diff
+        if not same(b["lines"], got):
+            k = first_diff(b["lines"], got)
             verdict.violation("%s:text:%s" % (sigprefix, desc),
                               "%s :: printed text differs at line %d: expected %r observed %r" % (
                                   desc, k + 1, b["lines"][k] if k < len(b["lines"]) else "<end>", got[k] if k < len(got) else "<end>"),
